@@ -357,8 +357,56 @@ def is_intvals(c):
         return False
 
 
+DECISION_PREFIXES = ('curvature.', 'dfdt.', 'menger.', 'lmethod.', 'kneedle.', 'multi_knee.', 'clustering.', 'postprocessing.', 'rdp.',
+                     'zmethod.', 'convex_hull.', 'evaluation.cm', 'evaluation.get_neighbourhood', 'evaluation.accuracy_',
+                     'knee_ranking.slope_ranking', 'knee_ranking.smooth_ranking', 'knee_ranking.rank')
+
+
+def is_decision(fn):
+    """call forms whose result is a decision (an index, a label, a selection), not just a number"""
+    return fn.startswith(DECISION_PREFIXES)
+
+
 def removed_rows(red):
     return [[red[i], red[i + 1] - red[i] - 1] for i in range(len(red) - 1)]
+
+
+def chord_hug(rng, n=None):
+    """small-integer curve that hugs its chord: integer x, chord of NON-integer slope between integer end points,
+    y = round(chord) + alternating / random +-1, +-2 perturbations or an S-shape (first half above, second half below, or
+    the reverse), so sums of residuals about the chord are near zero and any truncation of an intermediate to the input's
+    integer dtype can flip a sign-based decision.  Returns (family, points), all coordinates integer-valued and >= 0."""
+    n = n or rng.randint(5, 15)
+    xs_, x = [], rng.choice([0, 1, 2])
+    for _ in range(n):
+        xs_.append(x)
+        x += rng.choice([1, 1, 1, 2, 3])
+    span = xs_[-1] - xs_[0]
+    for _ in range(20):
+        rise = rng.choice([-1, 1]) * rng.randint(1, 3 * span)
+        if rise % span != 0:
+            break
+    y0 = rng.randint(0, 6) + (abs(rise) + 3 if rise < 0 else 3)
+    chord = [y0 + rise * (v - xs_[0]) / span for v in xs_]
+    shape = rng.choice(['alt', 'alt2', 'rand', 'S', 'S-rev', 'bump'])
+    ys_ = []
+    for i, cv in enumerate(chord):
+        if i == 0 or i == n - 1:
+            d = 0
+        elif shape == 'alt':
+            d = 1 if i % 2 else -1
+        elif shape == 'alt2':
+            d = rng.choice([1, 2]) * (1 if i % 2 else -1)
+        elif shape == 'rand':
+            d = rng.choice([-2, -1, -1, 0, 1, 1, 2])
+        elif shape == 'bump':
+            d = rng.choice([-1, 1]) * (2 if i == n // 2 else 0) + rng.choice([-1, 0, 1])
+        else:
+            sgn = 1 if i < n / 2 else -1
+            d = sgn * rng.choice([1, 1, 2]) * (1 if shape == 'S' else -1)
+        base = math.floor(cv) if rng.random() < 0.5 else math.ceil(cv)
+        ys_.append(max(0, int(base + d)))
+    return 'chordhug-' + shape, [[float(a), float(b)] for a, b in zip(xs_, ys_)]
 
 
 def dyn_case(rng, fn, tier, n=None, family=None):
@@ -367,7 +415,10 @@ def dyn_case(rng, fn, tier, n=None, family=None):
         n = rng.randint(6, 40 if big and rng.random() < 0.3 else 14)
         if big and rng.random() < 0.2:
             n = rng.randint(3, 7)
-    if family is not None:
+    if family == 'chordhug':
+        fam, pts = chord_hug(rng, n)
+        n = len(pts)
+    elif family is not None:
         fam, pts = gen.curve(rng, n, family)
     elif rng.random() < 0.55:
         fam, pts = gen.curve(rng, n, rng.choice(['grid', 'plateau', 'zigzag', 'collinear', 'elbow']))
@@ -709,10 +760,17 @@ class C20:
             return cases
         self.want_warmup = True
         names = sorted(FUNCS)
-        per = {'quick': 3, 'search': 2, 'thorough': 40}.get(tier, 3)
+        per = {'quick': 2, 'search': 2, 'thorough': 40}.get(tier, 2)
         for rep in range(per):
             for fn in names:
                 cases.append(dyn_case(rng, fn, tier))
+        # dtype stress: small-integer curves that hug their chord (chord_hug), always presented as int64 AND float64: any intermediate
+        # that inherits the input's integer dtype is truncated there and flips sign-based decisions (concavity votes, arg-extrema, threshold
+        # tests).  Decision-making call forms (detectors, clustering, filters, simplifiers, z-method, hulls, matching) get the larger share.
+        hug_dec, hug_other = {'quick': (8, 2), 'search': (8, 2), 'thorough': (60, 15)}.get(tier, (8, 2))
+        for fn in names:
+            for rep in range(hug_dec if is_decision(fn) else hug_other):
+                cases.append(dyn_case(rng, fn, tier, family='chordhug'))
         # layout stress: BLAS / SIMD kernels change path with the operand's size and memory order (the np.dot defect D15 shows
         # only for Fortran-ordered operands of 3 or 7 rows, in about 2% of random inputs), so the distance primitives and the
         # simplifiers that slice 3-point sub-curves get many tiny random-double inputs
@@ -853,7 +911,10 @@ class C20:
         if c['kind'] == 'link':
             return {'kind': 'link', 'link_ref_kind': c['ref'][0], 'link_live_verdict': c.get('live')}
         if c['kind'] == 'dyn':
-            return {'kind': 'dyn', 'dyn_function': c['fn'], 'dyn_int64_variant': c.get('intvals'), 'dyn_outcome': 'function missing' if c.get('missing') else 'raised' if c.get('raised') else 'returned',
+            d = {'dyn_int64_vs_float64_cases_by_function': c['fn']} if c.get('intvals') else {}
+            if c.get('intvals') and str(c.get('family', '')).startswith('chordhug'):
+                d['dyn_chord_hugging_int_cases_by_function'] = c['fn']
+            return {**d, 'kind': 'dyn', 'dyn_function': c['fn'], 'dyn_int64_variant': c.get('intvals'), 'dyn_outcome': 'function missing' if c.get('missing') else 'raised' if c.get('raised') else 'returned',
                     'dyn_family': c.get('family'), 'n': len(c['points']) // 8 * 8}
         return {'kind': c['kind']}
 
